@@ -138,6 +138,8 @@ def term(lo, e):
     value casts stripped, single-definition locals resolved"""
     e = lo.resolve(e)
     k = e.get("k")
+    if k == "_Term":
+        return e["text"]
     if k in ("Int", "Float"):
         v = e.get("text") or e.get("v")
         try:
@@ -263,11 +265,13 @@ class StatusFlow:
     ('lit', stmt_id) for an enumerator written in statement stmt_id, ('upd', call_id, name) for the
     result of a defect-update call.  Branches on `v == Status::X` / `v != Status::X` refine."""
 
-    def __init__(self, fn, callee_values):
+    def __init__(self, fn, callee_values, helpers=None):
         self.fn = fn
         self.cfg = fn.cfg
         self.lo = Locals(fn)
         self.cv = callee_values
+        self.helpers = helpers or {}     # own-class Status helpers: name -> set of (value, kind); kind = underlying update name | 'hlit'
+        self.unmodelled_tests = []       # conditions on a Status local that the refinement does not understand
         self.svars = {d for d, v in self.lo.var.items() if is_status_type(fn, v.get("t")) and not v.get("ref")}
         self.problems = []
         self.returns = {}      # return stmt id -> set
@@ -290,6 +294,8 @@ class StatusFlow:
             nm = cname(e)
             if nm in self.cv:
                 return {(v, ("upd", e["i"], nm)) for v in self.cv[nm]}
+            if nm in self.helpers and (k == "Call" or e.get("obj") is None or e["obj"].get("k") == "This"):
+                return {(v, ("hlit", e["i"], nm) if kind == "hlit" else ("upd", e["i"], kind)) for v, kind in self.helpers[nm]}
             raise Unknown("Status produced by unmodelled call %s" % render(e)[:80])
         if k == "Cond":
             return self.ev(e["then"], state, sid) | self.ev(e["else"], state, sid)
@@ -313,12 +319,45 @@ class StatusFlow:
             v = status_lit(r)
             if v is None or l.get("k") != "Ref" or l.get("d") not in self.svars or l["d"] not in st:
                 continue
+            leaf["_refined"] = True
             want_eq = (leaf["op"] == "==") == p
             new = frozenset(x for x in st[l["d"]] if (x[0] == v) == want_eq)
             if not new:
                 return None
             st[l["d"]] = new
         return st
+
+    def note_unmodelled(self, c):
+        """a branch condition that mentions a Status local in a form refine() does not model"""
+        for leaf, p in leaf_guards(c, True) + leaf_guards(c, False):
+            leaf = strip(leaf)
+            if leaf.get("_refined"):
+                continue
+            if any(x.get("k") == "Ref" and x.get("d") in self.svars for x in walk(leaf)):
+                t = "line %s: `%s`" % (leaf.get("l"), render(leaf)[:60])
+                if t not in self.unmodelled_tests:
+                    self.unmodelled_tests.append(t)
+
+    def switch_targets(self, blk):
+        """for a switch on a Status local: {successor block: set of admitted values} or None"""
+        c = strip(self.fn.by_id(blk["cond"])) if blk.get("cond") is not None else None
+        if c is None or c.get("k") != "Ref" or c.get("d") not in self.svars:
+            return None, None
+        out, listed, default = {}, set(), None
+        for s in blk.get("succ", []):
+            if s is None:
+                continue
+            lab = self.fn.by_id(self.cfg.blocks[s].get("label")) if self.cfg.blocks[s].get("label") is not None else None
+            if lab is not None and lab.get("k") == "Case" and status_lit(lab.get("v")) is not None:
+                out.setdefault(s, set()).add(status_lit(lab["v"]))
+                listed.add(status_lit(lab["v"]))
+            elif lab is not None and lab.get("k") == "Default":
+                default = s
+            else:
+                default = s if default is None else default      # implicit default: the statement after the switch
+        if default is not None:
+            out.setdefault(default, set()).update(set(ALL_STATUS) - listed)
+        return c["d"], out
 
     def transfer(self, bid, state, record):
         st = dict(state)
@@ -357,12 +396,27 @@ class StatusFlow:
             blk = cfg.blocks[b]
             ss = [s for s in blk.get("succ", [])]
             c = self.fn.by_id(blk["cond"]) if blk.get("cond") is not None else None
+            sw_d, sw = (None, None)
+            if blk.get("term") == "SwitchStmt":
+                sw_d, sw = self.switch_targets(blk)
+                if sw is None and c is not None and any(x.get("k") == "Ref" and x.get("d") in self.svars for x in walk(c)):
+                    self.note_unmodelled(c)
+            elif c is not None and len(ss) == 2:
+                pass
             for pos, s in enumerate(ss):
                 if s is None:
                     continue
                 so = out
-                if c is not None and len(ss) == 2 and ss[0] != ss[1]:
+                if sw is not None and sw_d in out:
+                    keep = frozenset(x for x in out[sw_d] if x[0] in sw.get(s, set()))
+                    if not keep:
+                        continue
+                    so = dict(out)
+                    so[sw_d] = keep
+                elif c is not None and len(ss) == 2 and ss[0] != ss[1]:
                     so = self.refine(c, pos == 0, out)
+                    if pos == 1:
+                        self.note_unmodelled(c)
                     if so is None:
                         continue
                 old = self.instate.get(s)
@@ -410,45 +464,66 @@ def callee_value_sets(facts, ck):
     return cv
 
 
+KNOWN_PREDICATES = ("is_converged", "is_diverged", "isfinite", "isnan", "_plot_iter", "_plot_summary", "_progress", "status_success", "abs", "sqr", "sqrt",
+                    "dot", "norm2", "wait", "size", "at", "back", "front", "get_num_iter", "min", "max", "empty")
+
+
 def classify_literal(fn, lo, gd, value, sid, defect_obj):
     """is the Status enumerator written in statement sid justified by the branch facts that dominate it?
-    -> (ok, why) ; ok None = not decidable"""
-    guards = gd.of_stmt(sid)
-    texts = []
+    -> (ok, why) ; ok None = not decidable (a dominating test goes through a predicate this rule does not model)"""
+    guards = []
+    todo = list(gd.of_stmt(sid))
+    n_exp = 0
+    while todo and n_exp < 200:
+        c, pol = todo.pop(0)
+        n_exp += 1
+        r = lo.resolve(c)
+        if r is not strip(c) and (r.get("k") == "Un" and r.get("op") == "!" or r.get("k") == "Bin" and r.get("op") in ("&&", "||")):
+            todo = leaf_guards(r, pol) + todo       # a bool local holding a compound test
+        else:
+            guards.append((r, pol))
+    texts, opaque = [], []
     for c, pol in guards:
-        c = strip(c)
         texts.append(("" if pol else "!") + render(c)[:60])
+        if (is_call(c) and not cname(c).startswith("_apply_precond") and cname(c) not in KNOWN_PREDICATES) or c.get("k") in ("Ref", "Member", "Lambda"):
+            ty = fn.ntype(c) or ""
+            if "bool" in ty or is_call(c):
+                opaque.append(render(c)[:50])
+
+    def verdict(msg):
+        if opaque:
+            return None, "Status::%s is guarded by predicate(s) this rule does not model (%s): cannot decide whether they are the required test" % (value, ", ".join(opaque))
+        return False, msg
     if value == "aborted":
         for c, pol in guards:
-            c = strip(c)
             if is_call(c) and cname(c).startswith("_apply_precond") and not pol:
                 return True, "after failed %s" % cname(c)
             if is_call(c) and cname(c) == "isfinite" and not pol:
                 return True, "breakdown: !isfinite(%s)" % term(lo, c["a"][0])
+            if is_call(c) and cname(c) == "status_success" and not pol:
+                return True, "after an unsuccessful inner solve"
         # a breakdown test: comparison of a scalar computed in this run (floating local, dot/norm result)
         for c, pol in guards:
-            c = strip(c)
             if c.get("k") == "Bin" and c.get("op") in ("<", "<=", ">", ">=", "==", "!="):
                 for o in (lo.resolve(c["lhs"]), lo.resolve(c["rhs"])):
                     floating = re.search(r"\b(double|float)\b|DataType", fn.ntype(o) or "")
                     computed = (o.get("k") == "Ref" and o.get("dk") == "local") or o.get("k") in ("MCall", "Call", "Bin")
                     if floating and computed:
                         return True, "breakdown test %s" % render(c)[:60]
-        return False, "Status::aborted is returned without a failed _apply_precond or a breakdown test dominating it (guards: %s)" % (", ".join(texts) or "none")
+        return verdict("Status::aborted is returned without a failed _apply_precond or a breakdown test dominating it (guards: %s)" % (", ".join(texts) or "none"))
     if value in ("success", "diverged"):
         want = "is_converged" if value == "success" else "is_diverged"
         for c, pol in guards:
-            c = strip(c)
-            if is_call(c) and cname(c) == want and pol and len(c.get("a", [])) == 1:
-                return True, "under %s(%s)" % (want, term(lo, c["a"][0]))
-        return False, "literal Status::%s is not control-dependent on the true edge of %s(norm of the current defect) (guards: %s)" % (value, want, ", ".join(texts) or "none")
+            if is_call(c) and cname(c) == want and pol and len(c.get("a", [])) <= 1:
+                return True, "under %s(%s)" % (want, term(lo, c["a"][0]) if c.get("a") else "")
+        return verdict("literal Status::%s is not control-dependent on the true edge of %s(norm of the current defect) (guards: %s)" % (value, want, ", ".join(texts) or "none"))
     if value in ("max_iter", "stagnated"):
         need = ("_max_iter",) if value == "max_iter" else ("_min_stag_iter", "_stag_rate")
         for c, pol in guards:
             names = {x.get("n") for x in walk(c) if x.get("k") == "Member"}
             if names & set(need):
                 return True, "under a test of %s" % "/".join(sorted(names & set(need)))
-        return False, "literal Status::%s is not guarded by a test of %s (guards: %s)" % (value, " or ".join(need), ", ".join(texts) or "none")
+        return verdict("literal Status::%s is not guarded by a test of %s (guards: %s)" % (value, " or ".join(need), ", ".join(texts) or "none"))
     return None, "unclassified"
 
 
@@ -463,20 +538,102 @@ def find_solver_functions(facts):
 
 
 def outer_loops(fn, sf):
-    """loop heads whose condition tests a Status local: [(head block, var decl id)]"""
+    """loops that carry the iteration: loop-condition blocks (while/for/do) whose condition tests a Status local,
+    or condition-less / constant-true loops around an assignment of a Status local: [(cond block, var decl id)]"""
     out = []
+    kill_blocks = {}
+    for sid, vn, old, new in sf.kills:
+        w = fn.cfg.block_of(sid)
+        if w:
+            kill_blocks.setdefault(w[0], strip(fn.by_id(sid)["lhs"])["d"])
     for bid, b in fn.cfg.blocks.items():
-        if b.get("term") in ("WhileStmt", "ForStmt", "DoStmt") and b.get("cond") is not None:
-            c = fn.by_id(b["cond"])
+        if b.get("term") not in ("WhileStmt", "ForStmt", "DoStmt"):
+            continue
+        c = fn.by_id(b["cond"]) if b.get("cond") is not None else None
+        d = None
+        if c is not None:
             for x in walk(c):
                 if x.get("k") == "Ref" and x.get("d") in sf.svars:
-                    out.append((bid, x["d"]))
+                    d = x["d"]
                     break
+        if d is None and (c is None or strip(c).get("k") == "Bool"):
+            # for(;;) / while(true): the iteration loop if a status assignment lies on its cycle
+            succ = [s for s in b.get("succ", []) if s is not None]
+            if succ:
+                body = fn.cfg.reachable(succ[0], avoid={bid})
+                cyc = [k for k in kill_blocks if k in body and bid in fn.cfg.reachable(k)]
+                # only the outermost such loop: skip if this loop lies inside another candidate's body (approximation: take it)
+                if cyc:
+                    d = kill_blocks[cyc[0]]
+        if d is not None:
+            out.append((bid, d))
     return out
 
 
+def status_helpers(members, cls, cv, skip=("apply", "correct", "_apply_intern")):
+    """own-class members of the same instantiation that return a Status: {name: Function}, their value
+    summaries {name: {(value, kind)}} and their flows.  kind = underlying defect-update name or 'hlit'."""
+    cands = {}
+    for name, fl in members.items():
+        for f in fl:
+            if f.cls == cls and name not in skip and f.d.get("ret") is not None and is_status_type(f, f.d["ret"]) and f.cfg is not None and not f.d.get("ctor"):
+                cands[name] = f
+    summ, flows = {}, {}
+    for rnd in range(len(cands) + 1):
+        for name, f in cands.items():
+            if name in summ:
+                continue
+            sf = StatusFlow(f, cv, summ)
+            pending = [c for c in f.calls() if cname(c) in cands and cname(c) not in summ and cname(c) != name]
+            if pending and rnd < len(cands):
+                continue
+            vals = set()
+            for rs in sf.returns.values():
+                for v, org in rs:
+                    vals.add((v, org[2] if org[0] == "upd" else "hlit"))
+            summ[name] = vals
+            flows[name] = sf
+    return cands, summ, flows
+
+
+def own_unmodelled_calls(fn, known):
+    """calls of non-const own-class methods that the status rules do not model (possible carriers of a missing effect)"""
+    out = []
+    for c in fn.calls():
+        if c.get("k") == "MCall" and (c.get("obj") is None or c["obj"].get("k") == "This") and not c.get("cconst") and cname(c) not in known:
+            if short_cls(c.get("ccls", "")) in (short_cls(fn.cls), "IterativeSolver", "PreconditionedIterativeSolver", "SolverBase"):
+                out.append(cname(c))
+        elif c.get("k") == "OpCall" and c.get("op") == "()":
+            out.append("lambda/functor call at line %s" % c.get("l"))
+    return sorted(set(out))
+
+
+PROTOCOL_KNOWN = set(UPD) | {"_apply_precond", "_apply_precond_l", "_apply_precond_r", "_precond_l", "_precond_r", "_plot_iter_line", "_print_line", "_set_shadow_space",
+                               "plot_summary", "set_plot_name"}
+
+
+def find_defect_obj(fn, lo, cands):
+    """object measured by _set_initial_defect, looked up in fn or one level down in a helper"""
+    inits = [c for c in fn.calls() if cname(c) == "_set_initial_defect"]
+    if inits:
+        return objkey(lo, inits[0]["a"][0])
+    for c in fn.calls():
+        h = cands.get(cname(c))
+        if h is None:
+            continue
+        hl = Locals(h)
+        for c2 in h.calls():
+            if cname(c2) == "_set_initial_defect":
+                k = objkey(hl, c2["a"][0])
+                if k.startswith("$"):
+                    i = int(k[1:])
+                    return objkey(lo, c["a"][i]) if i < len(c.get("a", [])) else None
+                return k
+    return None
+
+
 def rule_status_protocol(ck, solvers, cv):
-    """E7 rules on every _apply_intern"""
+    """E7 rules on every _apply_intern (and on the Status-returning private helpers it delegates to)"""
     for sc in sorted(SOLVERS):
         fns = solvers.get(sc, {}).get("_apply_intern", [])
         if not fns:
@@ -490,38 +647,57 @@ def rule_status_protocol(ck, solvers, cv):
 
         for fn in fns:
             tag = short_inst(fn)
-            sf = StatusFlow(fn, cv)
-            lo, gd = sf.lo, Guards(fn)
-            for p in sf.problems:
-                ck.incomplete("E7.status-origin", "%s::_apply_intern [%s]: %s" % (sc, tag, p))
+            cands, summ, hflows = status_helpers(solvers.get(sc, {}), fn.cls, cv)
+            sf = StatusFlow(fn, cv, summ)
+            lo = sf.lo
+            units = [("_apply_intern", fn, sf)] + [(n, cands[n], hflows[n]) for n in sorted(cands) if any(cname(c) == n for u in [fn] + list(cands.values()) for c in u.calls())]
+            for un, ufn, usf in units:
+                for p in usf.problems:
+                    ck.incomplete("E7.status-origin", "%s::%s [%s]: %s" % (sc, un, tag, p))
             if not sf.returns:
                 ck.incomplete("E7.status-origin", "%s::_apply_intern [%s]: no return found" % (sc, tag))
-            # --- the defect vector object measured by _set_initial_defect
-            inits = [c for c in fn.calls() if cname(c) == "_set_initial_defect"]
-            defect_obj = objkey(lo, inits[0]["a"][0]) if inits else None
-            # --- returned values
-            nlit = 0
+            opaque_tests = sf.unmodelled_tests
+            carriers = own_unmodelled_calls(fn, PROTOCOL_KNOWN | set(cands))
+
+            def definite(cat, rule, detail, line, why_not=None):
+                """a value-set verdict is definite only if every test of the Status locals was understood"""
+                if opaque_tests or why_not:
+                    ck.incomplete(rule, "%s::_apply_intern [%s]: %s — not decidable: %s" % (sc, tag, detail[:160], why_not or ("the Status local is tested by " + "; ".join(opaque_tests[:2]))))
+                else:
+                    add(cat, False, detail, line)
+            defect_obj = find_defect_obj(fn, lo, cands)
+            # --- returned values of _apply_intern
             for rid, vals in sorted(sf.returns.items()):
                 rn = fn.by_id(rid)
                 line = rn.get("l")
                 prog = [x for x in vals if x[0] == "progress"]
-                add("progress", not prog, "return at line %s may yield Status::progress (internal use only): %s" % (line, render(rn)) if prog else "no return can yield progress", line)
+                if prog:
+                    definite("progress", "E7.status-origin", "return at line %s may yield Status::progress (internal use only): %s" % (line, render(rn)), line)
+                else:
+                    add("progress", True, "no return can yield progress", line)
                 und = [x for x in vals if x[0] == "undefined"]
                 if und:
                     w = fn.cfg.block_of(rid)
                     path = fn.cfg.path_to(w[0]) if w else None
-                    add("undefined", False, "[%s] `%s` at line %s is reachable: the Status locals admit %s there (CFG path through lines %s); a run whose defect update already returned a terminal status ends with Status::undefined" % (
+                    definite("undefined", "E7.status-origin", "[%s] `%s` at line %s is reachable: the Status locals admit %s there (CFG path through lines %s); a run whose defect update already returned a terminal status ends with Status::undefined" % (
                         tag, render(rn), line, describe_state(sf, w[0] if w else None), compress(fn.cfg.block_lines(path))), line)
-                for v, org in sorted(vals, key=str):
-                    if org[0] != "lit" or v in ("progress", "undefined"):
-                        continue
-                    nlit += 1
-                    ok, why = classify_literal(fn, lo, gd, v, org[1], defect_obj)
-                    sl = (fn.by_id(org[1]) or {}).get("l")
-                    if ok is None:
-                        ck.incomplete("E7.status-origin", "%s::_apply_intern [%s] line %s: %s" % (sc, tag, sl, why))
-                    else:
-                        add("literal", ok, ("[%s] line %s: " % (tag, sl)) + why, sl)
+            # --- literal terminal statuses, in _apply_intern and in the helpers
+            nlit = 0
+            for un, ufn, usf in units:
+                ulo, ugd = usf.lo, Guards(ufn)
+                seen = set()
+                for rid, vals in sorted(usf.returns.items()):
+                    for v, org in sorted(vals, key=str):
+                        if org[0] != "lit" or v in ("progress", "undefined") or (v, org[1]) in seen:
+                            continue
+                        seen.add((v, org[1]))
+                        nlit += 1
+                        ok, why = classify_literal(ufn, ulo, ugd, v, org[1], defect_obj)
+                        sl = (ufn.by_id(org[1]) or {}).get("l")
+                        if ok is None:
+                            ck.incomplete("E7.status-origin", "%s::%s [%s] line %s: %s" % (sc, un, tag, sl, why))
+                        else:
+                            add("literal", ok, ("[%s] %s line %s: " % (tag, un, sl)) + why, sl)
             # tail `return Status::undefined` that is infeasible: fine (c)
             for bid, b in fn.cfg.blocks.items():
                 for sid in b["el"]:
@@ -534,34 +710,56 @@ def rule_status_protocol(ck, solvers, cv):
                 add("literal", True, "[%s] no literal terminal status" % tag, fn.line)
             # --- a terminal status of a defect update is never overwritten
             nk = 0
-            for sid, vn, old, new in sf.kills:
-                lost = sorted({"%s from %s" % (x[0], x[1][2]) for x in old if x[0] != "progress" and x[1][0] == "upd"})
-                nk += 1
-                ln = (fn.by_id(sid) or {}).get("l")
-                add("tested", not lost, ("[%s] line %s: `%s` overwrites '%s' while it may still hold a terminal status that was never returned: %s" % (tag, ln, render(fn.by_id(sid))[:90], vn, ", ".join(lost))) if lost
-                    else "[%s] every defect-update status is tested before '%s' is reassigned" % (tag, vn), ln)
+            for un, ufn, usf in units:
+                for sid, vn, old, new in usf.kills:
+                    lost = sorted({"%s from %s" % (x[0], x[1][2]) for x in old if x[0] != "progress" and x[1][0] == "upd"})
+                    nk += 1
+                    ln = (ufn.by_id(sid) or {}).get("l")
+                    if lost:
+                        definite("tested", "E7.status-tested", "[%s] %s line %s: `%s` overwrites '%s' while it may still hold a terminal status that was never returned: %s" % (tag, un, ln, render(ufn.by_id(sid))[:90], vn, ", ".join(lost)), ln,
+                                 ("the Status local is tested by " + "; ".join(usf.unmodelled_tests[:2])) if usf.unmodelled_tests else None)
+                    else:
+                        add("tested", True, "[%s] every defect-update status is tested before '%s' is reassigned" % (tag, vn), ln)
             if nk == 0:
                 add("tested", True, "[%s] status variable assigned once" % tag, fn.line)
             # --- every _apply_precond result is tested and its failure returns aborted
-            for c in fn.calls():
-                if not cname(c).startswith("_apply_precond") or not re.search(r"\bbool\b", fn.ntype(c) or "bool"):
-                    continue
-                ok, why = precond_tested(fn, sf, c)
-                perkey.setdefault(("E7.precond-tested", "%s::_apply_intern/%s#%d" % (sc, cname(c), ordinal(fn, c))), []).append((ok, "[%s] line %s: %s" % (tag, c.get("l"), why), c.get("l")))
+            for un, ufn, usf in units:
+                for c in ufn.calls():
+                    if not cname(c).startswith("_apply_precond") or not re.search(r"\bbool\b", ufn.ntype(c) or "bool"):
+                        continue
+                    ok, why = precond_tested(ufn, usf, c)
+                    key = "%s::%s/%s#%d" % (sc, un, cname(c), ordinal(ufn, c))
+                    if ok is None:
+                        ck.incomplete("E7.precond-tested", "%s [%s] line %s: %s" % (key, tag, c.get("l"), why))
+                        ok = True
+                    perkey.setdefault(("E7.precond-tested", key), []).append((ok, "[%s] line %s: %s" % (tag, c.get("l"), why), c.get("l")))
             # --- outer loop passes a defect update on every iteration ; initial defect first
             loops = outer_loops(fn, sf)
             if len(loops) < 1:
                 ck.incomplete("E7.loop-defect-update", "%s::_apply_intern [%s]: no loop controlled by a Status local found" % (sc, tag))
             for head, d in loops:
                 ok, why = loop_updates(fn, sf, head, d)
-                add("loop", ok, "[%s] %s" % (tag, why), (fn.by_id(fn.cfg.blocks[head]["cond"]) or {}).get("l"))
-            ok, why = initial_first(fn, sf, loops)
-            add("initial", ok, "[%s] %s" % (tag, why), fn.line)
+                ln = (fn.by_id(fn.cfg.blocks[head]["cond"]) or {}).get("l") if fn.cfg.blocks[head].get("cond") is not None else fn.line
+                if ok:
+                    add("loop", True, "[%s] %s" % (tag, why), ln)
+                else:
+                    definite("loop", "E7.loop-defect-update", "[%s] %s" % (tag, why), ln, ("the loop body calls %s, which may perform the defect update" % ", ".join(carriers)) if carriers else None)
+            init_helpers = {n for n, h in cands.items() if h.cfg.must_pass(lambda x: is_call(x) and cname(x) == "_set_initial_defect")[0]}
+            ok, why = initial_first(fn, sf, loops, init_helpers)
+            if ok:
+                add("initial", True, "[%s] %s" % (tag, why), fn.line)
+            else:
+                definite("initial", "E7.initial-defect-first", "[%s] %s" % (tag, why), fn.line, ("%s is called before the iteration and may set the initial defect" % ", ".join(carriers)) if carriers else None)
             # --- norms handed to _update_defect / is_converged / is_diverged are norms of the defect vector
-            for c in fn.calls():
-                if cname(c) in ("_update_defect", "is_converged", "is_diverged") and len(c.get("a", [])) == 1:
-                    ok, why = norm_of_defect(fn, lo, c["a"][0], defect_obj)
-                    perkey.setdefault(("E7.defect-norm-object", "%s::_apply_intern/%s#%d" % (sc, cname(c), ordinal(fn, c))), []).append((ok, "[%s] line %s: %s" % (tag, c.get("l"), why), c.get("l")))
+            for un, ufn, usf in units:
+                for c in ufn.calls():
+                    if cname(c) in ("_update_defect", "is_converged", "is_diverged") and len(c.get("a", [])) == 1:
+                        ok, why = norm_of_defect(ufn, usf.lo, c["a"][0], defect_obj if un == "_apply_intern" or not (defect_obj or "").startswith("$") else None)
+                        key = "%s::%s/%s#%d" % (sc, un, cname(c), ordinal(ufn, c))
+                        if ok is None:
+                            ck.incomplete("E7.defect-norm-object", "%s [%s] line %s: %s" % (key, tag, c.get("l"), why))
+                            ok = True
+                        perkey.setdefault(("E7.defect-norm-object", key), []).append((ok, "[%s] line %s: %s" % (tag, c.get("l"), why), c.get("l")))
         f0 = fns[0]
         for (rule, key), items in sorted(perkey.items()):
             bad = [x for x in items if not x[0]]
@@ -574,7 +772,7 @@ def rule_status_protocol(ck, solvers, cv):
             if bad:
                 ck.ob(rule, key, False, "; ".join(x[1] for x in bad[:3]), f0.file, bad[0][2])
             else:
-                ck.ob(rule, key, True, "; ".join(x[1] for x in items[:4]), f0.file, f0.line)
+                ck.ob(rule, key, True, "; ".join(x[1] for x in items[:4]) or "decided only partially, see analysis_incomplete", f0.file, f0.line)
 
 
 def short_inst(fn):
@@ -610,42 +808,74 @@ def describe_state(sf, bid):
 
 
 def precond_tested(fn, sf, call):
+    """-> (True|False|None, why).  None: the result flows somewhere this rule does not follow"""
     cfg = fn.cfg
-    # the call must occur inside the condition of a branching block
+    lo = sf.lo
+    # the call itself, or a bool local initialised/assigned exactly from it, must be a leaf of a branch condition
+    holders = {call["i"]}
+    holder_vars = {}          # local -> True if it holds the result, False if it holds its negation
+
+    def holds(e):
+        lg = leaf_guards(e, True)
+        if len(lg) == 1 and strip(lg[0][0]).get("i") == call["i"]:
+            return lg[0][1]
+        return None
+    for d, v in lo.var.items():
+        if v.get("init") is not None and holds(v["init"]) is not None and lo.writes.get(d, 0) == 0:
+            holder_vars[d] = holds(v["init"])
+    for n in fn.nodes():
+        if n.get("k") == "Assign" and n.get("op") == "=" and holds(n["rhs"]) is not None and strip(n["lhs"]).get("k") == "Ref" and lo.writes.get(strip(n["lhs"])["d"], 0) == 1:
+            holder_vars[strip(n["lhs"])["d"]] = holds(n["rhs"])
+
+    def is_result(x):
+        x = strip(x)
+        return x.get("i") in holders or (x.get("k") == "Ref" and x.get("d") in holder_vars)
     for bid, b in cfg.blocks.items():
         if b.get("cond") is None or len(b.get("succ", [])) != 2:
             continue
         c = fn.by_id(b["cond"])
-        if c is None or not any(x is call or x.get("i") == call["i"] for x in walk(c)):
+        if c is None or not any(is_result(x) for x in walk(c)):
             continue
         pol = None
         for leaf, p in leaf_guards(c, True):
-            if strip(leaf).get("i") == call["i"]:
-                pol = p
+            if is_result(leaf):
+                lf = strip(leaf)
+                pol = p if lf.get("i") in holders else (p == holder_vars[lf["d"]])
         if pol is None:
-            return False, "result of %s is used inside `%s` in a way that is not a plain success test" % (cname(call), render(c)[:80])
+            return None, "result of %s is used inside `%s` in a way that is not a plain success test" % (cname(call), render(c)[:80])
         fail = b["succ"][1] if pol else b["succ"][0]
         # from the failure edge every path must end in a return of aborted without reaching the call again
         seen, st = set(), [fail]
+        callblk = (cfg.block_of(call["i"]) or (None,))[0]
         while st:
             x = st.pop()
             if x in seen:
                 continue
             seen.add(x)
-            if x == bid:
+            if x == callblk:
                 return False, "after a failed %s the iteration continues (the failure edge flows back to the call)" % cname(call)
             if x == cfg.exit:
                 continue
             rets = [s for s in cfg.blocks[x]["el"] if (fn.by_id(s) or {}).get("k") == "Return"]
             if rets:
                 vals = sf.returns.get(rets[0])
-                if vals is None or {v[0] for v in vals} != {"aborted"}:
+                if vals is None:
+                    return None, "the value returned at line %s after a failed %s could not be evaluated" % (fn.by_id(rets[0]).get("l"), cname(call))
+                if {v[0] for v in vals} != {"aborted"}:
                     return False, "after a failed %s the function returns %s at line %s instead of Status::aborted" % (
-                        cname(call), sorted({v[0] for v in vals}) if vals else "?", fn.by_id(rets[0]).get("l"))
+                        cname(call), sorted({v[0] for v in vals}), fn.by_id(rets[0]).get("l"))
                 continue
             st.extend(s for s in cfg.succ.get(x, []))
         return True, "failure of %s returns Status::aborted" % cname(call)
-    return False, "the bool result of %s(%s) is not tested: a preconditioner failure goes unnoticed and the iteration continues with an undefined correction" % (
+    # not a branch condition: discarded, or flowing into something else?
+    par = parent_map(fn)
+    pn = par.get(call["i"])
+    while pn is not None and pn.get("k") in ("Cast", "Un"):
+        pn = par.get(pn.get("i"))
+    used = holder_vars or (pn is not None and pn.get("k") not in ("Block", "If", "While", "For", "Do", "Case", "Default", "Switch"))
+    if used:
+        return None, "the result of %s is stored / passed on (%s) and not tested by a branch this rule follows" % (cname(call), render(pn)[:50] if pn is not None else "local")
+    return False, "the bool result of %s(%s) is discarded: a preconditioner failure goes unnoticed and the iteration continues with an undefined correction" % (
         cname(call), ", ".join(render(a) for a in call.get("a", [])[:2]))
 
 
@@ -654,7 +884,10 @@ def loop_updates(fn, sf, head, d):
     marked = set()
     for sid, vn, old, new in sf.kills:
         n = fn.by_id(sid)
-        if strip(n["lhs"])["d"] == d and any(x[1][0] == "upd" and x[1][2] != "_set_initial_defect" for x in new):
+        upd = [x for x in new if x[1][0] == "upd" and x[1][2] != "_set_initial_defect"]
+        prog_other = [x for x in new if x[0] == "progress" and x not in upd]
+        # an update point: the status can only come back as `progress` out of a (non-initial) defect update
+        if strip(n["lhs"])["d"] == d and upd and not prog_other:
             w = cfg.block_of(sid)
             if w:
                 marked.add(w[0])
@@ -677,7 +910,7 @@ def loop_updates(fn, sf, head, d):
             ss = cfg.blocks[b]["succ"][:1]
         for t in ss:
             st.append((b, t))
-    ln = (fn.by_id(cfg.blocks[head]["cond"]) or {}).get("l")
+    ln = (fn.by_id(cfg.blocks[head]["cond"]) or {}).get("l") if cfg.blocks[head].get("cond") is not None else compress(cfg.block_lines([body])[:1])
     if head in reach:
         return False, "loop at line %s: some path from the loop head back to it passes no _set_new_defect/_update_defect assigning '%s' (the stopping criteria are skipped for that iteration)" % (ln, sf.lo.var[d]["n"])
     if not marked:
@@ -685,7 +918,7 @@ def loop_updates(fn, sf, head, d):
     return True, "every iteration of the loop at line %s passes a defect update" % ln
 
 
-def initial_first(fn, sf, loops):
+def initial_first(fn, sf, loops, init_helpers=()):
     cfg = fn.cfg
     targets = {h for h, d in loops}
     for c in fn.calls():
@@ -693,26 +926,37 @@ def initial_first(fn, sf, loops):
             w = cfg.block_of(c["i"])
             if w:
                 targets.add(w[0])
-    ok, bad = cfg.must_pass(lambda n: is_call(n) and cname(n) == "_set_initial_defect", target_blocks=sorted(targets))
+    ok, bad = cfg.must_pass(lambda n: is_call(n) and (cname(n) == "_set_initial_defect" or cname(n) in init_helpers), target_blocks=sorted(targets))
     if not ok:
         return False, "a path from entry reaches the iteration (block lines %s) without _set_initial_defect: _num_iter/_num_stag_iter/_def_init of the previous solve are reused" % compress(cfg.block_lines(cfg.path_to(bad[0])))
-    n = len([c for c in fn.calls() if cname(c) == "_set_initial_defect"])
-    return (n >= 1), "_set_initial_defect precedes the iteration on every path"
+    n = len([c for c in fn.calls() if cname(c) == "_set_initial_defect" or cname(c) in init_helpers])
+    return (n >= 1), ("_set_initial_defect precedes the iteration on every path" if n else "_set_initial_defect is never called")
 
 
 def norm_of_defect(fn, lo, arg, defect_obj):
+    """-> (True|False|None, why).  False only if the tested value is the 2-norm of an identified *other* vector"""
     e = lo.resolve(arg)
     # norm2_async().wait()
     if e.get("k") == "MCall" and cname(e) == "wait":
         e = lo.resolve(e.get("obj"))
+    ob = None
     if e.get("k") == "MCall" and cname(e) in ("norm2", "norm2_async"):
         ob = objkey(lo, e.get("obj"))
-        if defect_obj is None:
-            return False, "no _set_initial_defect to compare with"
-        if ob == defect_obj:
-            return True, "norm of %s, the vector given to _set_initial_defect" % ob
-        return False, "the value tested is the norm of %s, but the defect vector of this solver (argument of _set_initial_defect) is %s" % (ob, defect_obj)
-    return False, "the value tested (%s) is not a norm2 of the defect vector %s" % (render(e)[:60], defect_obj)
+    elif e.get("k") == "Call" and cname(e) == "sqrt" and e.get("a"):
+        q = lo.resolve(e["a"][0])
+        if q.get("k") == "MCall" and cname(q) == "wait":
+            q = lo.resolve(q.get("obj"))
+        if q.get("k") == "MCall" and cname(q) in ("dot", "dot_async") and q.get("a") and objkey(lo, q.get("obj")) == objkey(lo, q["a"][0]):
+            ob = objkey(lo, q.get("obj"))
+        elif q.get("k") == "MCall" and cname(q) == "norm2sqr":
+            ob = objkey(lo, q.get("obj"))
+    if ob is None:
+        return None, "the value tested (%s) is not recognisably a 2-norm of a vector (computed elsewhere?)" % render(e)[:60]
+    if defect_obj is None or defect_obj.startswith("?") or ob.startswith("?") or ob.startswith("$") != defect_obj.startswith("$") and (ob.startswith("$") or defect_obj.startswith("$")):
+        return None, "cannot identify the defect vector of this solver (argument of _set_initial_defect: %s; tested: norm of %s)" % (defect_obj, ob)
+    if ob == defect_obj:
+        return True, "norm of %s, the vector given to _set_initial_defect" % ob
+    return False, "the value tested is the norm of %s, but the defect vector of this solver (argument of _set_initial_defect) is %s" % (ob, defect_obj)
 
 
 # -------------------------------------------------------------------------------------------------
@@ -724,6 +968,8 @@ def formula(lo, e):
     Comparisons are canonicalised to `le` atoms: a<b = !le(b,a), a>b = !le(a,b), a>=b = le(b,a)."""
     e = lo.resolve(e)
     k = e.get("k")
+    if k == "_Term":
+        return e["f"] if e.get("f") is not None else ("atom", e["text"])
     if k == "Bool":
         return ("const", bool(e["v"]))
     if k == "Un" and e.get("op") == "!":
@@ -786,8 +1032,31 @@ def split_top(s):
     return s, ""
 
 
+class PathLocals:
+    """Locals view along one path: re-assigned locals resolve to the value they hold at this point of the path"""
+
+    def __init__(self, base, env):
+        self.base, self.env = base, env
+        self.fn, self.var, self.writes = base.fn, base.var, base.writes
+
+    def resolve(self, e, depth=0):
+        e = strip(e)
+        while isinstance(e, dict) and e.get("k") == "Ref" and e.get("dk") == "local" and depth < 20:
+            if e.get("d") in self.env:
+                return self.env[e["d"]]
+            v = self.var.get(e.get("d"))
+            if v is None or v.get("init") is None:
+                break
+            if not v.get("ref") and self.writes.get(e["d"], 0) > 0:
+                break
+            e = strip(v["init"])
+            depth += 1
+        return e
+
+
 class Paths:
-    """all entry->exit paths of a loop-free function: constraints [(formula, polarity)], field effects, outcome"""
+    """all entry->exit paths of a loop-free function: constraints [(formula, polarity)], field effects, outcome.
+    Locals that are assigned more than once are tracked along each path (symbolic store)."""
 
     def __init__(self, fn, bool_result=False):
         self.fn = fn
@@ -796,30 +1065,35 @@ class Paths:
         self.problems = []
         self.bool_result = bool_result
         cfg = fn.cfg
-        self._walk(cfg.entry, [], [], set())
+        self._walk(cfg.entry, [], [], set(), {})
 
-    def _effects(self, bid):
-        out = []
-        for sid in self.fn.cfg.blocks[bid]["el"]:
-            n = self.fn.by_id(sid)
-            if n is None:
-                continue
-            if n.get("k") == "Assign":
-                # chained assignment a = b = c = v: every link is its own Assign element; record (lhs, value)
-                lhs = strip(n["lhs"])
-                if lhs.get("k") == "Member" and lhs.get("field"):
-                    rhs = n["rhs"]
-                    while strip(rhs).get("k") == "Assign" and strip(rhs).get("op") == "=":
-                        rhs = strip(rhs)["rhs"]
-                    out.append(("%s%s" % (term(self.lo, lhs), n["op"]), term(self.lo, rhs)))
-            elif n.get("k") == "Un" and n.get("op") in ("++", "--"):
-                t = strip(n["e"])
-                if t.get("k") == "Member" and t.get("field"):
-                    out.append((term(self.lo, t) + n["op"], ""))
-        return out
+    def _select(self, lo, e, cons):
+        """a ?: whose condition was already decided on this path denotes the chosen branch"""
+        e = lo.resolve(e)
+        n = 0
+        while e.get("k") == "Cond" and n < 8:
+            f = formula(lo, e["c"])
+            hit = [pol for g, pol in cons if g == f]
+            if not hit:
+                break
+            e = lo.resolve(e["then"] if hit[-1] else e["else"])
+            n += 1
+        return e
 
-    def _walk(self, b, cons, eff, onpath):
+    def _value(self, lo, e, ty, cons=()):
+        e = self._select(lo, e, cons)
+        t = term(lo, e)
+        f = None
+        if ty.strip() in ("bool", "const bool"):
+            try:
+                f = formula(lo, e)
+            except Exception:
+                f = None
+        return {"k": "_Term", "text": t, "f": f}
+
+    def _walk(self, b, cons, eff, onpath, env):
         cfg = self.fn.cfg
+        fn = self.fn
         if b in onpath:
             self.problems.append("function is not loop-free (block %d revisited)" % b)
             return
@@ -827,15 +1101,47 @@ class Paths:
             self.problems.append("too many paths")
             return
         blk = cfg.blocks[b]
-        eff = eff + self._effects(b)
+        eff = list(eff)
+        env = dict(env)
+        lo = PathLocals(self.lo, env)
         for sid in blk["el"]:
-            n = self.fn.by_id(sid)
-            if n is not None and n.get("k") == "Return":
+            n = fn.by_id(sid)
+            if n is None:
+                continue
+            k = n.get("k")
+            if k == "Decl":
+                for v in n.get("vars", []):
+                    if not v.get("ref") and v.get("init") is not None and self.lo.writes.get(v["d"], 0) > 0:
+                        env[v["d"]] = self._value(lo, v["init"], fn.type(v.get("t")) or "", cons)
+            elif k == "Assign":
+                lhs = strip(n["lhs"])
+                if lhs.get("k") == "Ref" and lhs.get("dk") == "local" and not (self.lo.var.get(lhs["d"]) or {}).get("ref"):
+                    ty = fn.ntype(lhs) or ""
+                    if n.get("op") == "=":
+                        env[lhs["d"]] = self._value(lo, n["rhs"], ty, cons)
+                    else:
+                        old = term(lo, lhs)
+                        env[lhs["d"]] = {"k": "_Term", "text": "%s(%s,%s)" % (n["op"], old, term(lo, n["rhs"])), "f": None}
+                elif lhs.get("k") == "Member" and lhs.get("field"):
+                    # chained assignment a = b = c = v: every link is its own Assign element; record (lhs, value)
+                    rhs = n["rhs"]
+                    while strip(rhs).get("k") == "Assign" and strip(rhs).get("op") == "=":
+                        rhs = strip(rhs)["rhs"]
+                    eff.append(("%s%s" % (term(lo, lhs), n["op"]), term(lo, rhs)))
+            elif k == "Un" and n.get("op") in ("++", "--"):
+                t = strip(n["e"])
+                if t.get("k") == "Member" and t.get("field"):
+                    eff.append((term(lo, t) + n["op"], ""))
+                elif t.get("k") == "Ref" and t.get("dk") == "local":
+                    env[t["d"]] = {"k": "_Term", "text": "%s(%s)" % (n["op"], term(lo, t)), "f": None}
+            elif k == "Return":
                 e = n.get("e")
+                if e is not None:
+                    e = self._select(lo, e, cons)
                 if self.bool_result:
-                    out = formula(self.lo, e)
+                    out = formula(lo, e)
                 else:
-                    out = term(self.lo, e) if e is not None else None
+                    out = term(lo, e) if e is not None else None
                 self.paths.append({"cons": cons, "eff": eff, "out": out, "line": n.get("l")})
                 return
         if b == cfg.exit:
@@ -847,12 +1153,12 @@ class Paths:
         if any((self.fn.by_id(s) or {}).get("k") == "Throw" for s in blk["el"]):
             return
         if len(ss) == 1 or (len(ss) == 2 and ss[0] == ss[1]):
-            self._walk(ss[0], cons, eff, onpath | {b})
+            self._walk(ss[0], cons, eff, onpath | {b}, env)
         elif len(ss) == 2 and blk.get("cond") is not None:
             c = self.fn.by_id(blk["cond"])
-            f = formula(self.lo, c)
-            self._walk(ss[0], cons + [(f, True)], eff, onpath | {b})
-            self._walk(ss[1], cons + [(f, False)], eff, onpath | {b})
+            f = formula(lo, c)
+            self._walk(ss[0], cons + [(f, True)], eff, onpath | {b}, env)
+            self._walk(ss[1], cons + [(f, False)], eff, onpath | {b}, env)
         elif blk.get("term") == "SwitchStmt":
             self.problems.append("switch")
         else:
@@ -920,6 +1226,9 @@ def monotone(ps, var, increasing):
     return True, "%d single-atom decreases of the defect checked over %d comparisons of def_cur: result is monotone %s" % (n, len(dirs), "increasing" if increasing else "decreasing")
 
 
+BASE_KNOWN = {"_calc_def_norm", "_analyse_defect", "_plot_iter", "_plot_iter_line", "_print_line", "is_converged", "is_diverged", "name", "get_num_iter"}
+
+
 def consistent(env):
     """totality of <=: le(a,b) and le(b,a) cannot both be false"""
     for a, v in env.items():
@@ -955,6 +1264,13 @@ def compare_table(ck, rule, key, fn, paths, oracle_atoms, oracle):
             return
         g = got[0]
         if (g[0], g[1]) != (want[0], tuple(sorted(set(want[1])))):
+            if isinstance(g[0], str) and g[0] not in ALL_STATUS:
+                ck.incomplete(rule, "%s: the value returned at line %s (%s) is not an enumerator this rule can evaluate" % (key, g[2], g[0][:60]))
+                return
+            carriers = own_unmodelled_calls(fn, BASE_KNOWN)
+            if carriers:
+                ck.incomplete(rule, "%s: the body differs from the documented table but delegates to %s, which this rule does not follow" % (key, ", ".join(carriers)))
+                return
             wit = ", ".join("%s=%s" % (a, "T" if env[a] else "F") for a in atoms)
             ck.ob(rule, key, False, "the code deviates from the documented criterion: for {%s} the code (return at line %s) yields %s with effects %s, the documentation says %s with effects %s%s" % (
                 wit, g[2], g[0], list(g[1]), want[0], sorted(set(want[1])), ("; atoms not in the documented criterion: %s" % extra) if extra else ""), fn.file, g[2])
@@ -1259,6 +1575,10 @@ def rule_defect_update(ck, facts):
         if ps.problems or not ps.paths:
             ck.incomplete("E7.num-iter-once", "%s: %s" % (key, "; ".join(sorted(set(ps.problems))[:3]) or "no paths"))
             continue
+        carriers = own_unmodelled_calls(fn, BASE_KNOWN)
+        if carriers:
+            ck.incomplete("E7.num-iter-once", "%s delegates to %s, which this rule does not follow (may update _num_iter/_def_prev/_def_cur)" % (key, ", ".join(carriers)))
+            continue
         bad_inc, bad_hist, bad_def = [], [], []
         for p in ps.paths:
             effs = p["eff"]
@@ -1294,6 +1614,9 @@ def rule_defect_update(ck, facts):
             nret += 1
             e = lo.resolve(n.get("e"))
             if not (e.get("k") == "MCall" and cname(e) == "_analyse_defect"):
+                if is_call(e) or e.get("k") in ("Ref", "Cond"):
+                    ck.incomplete("E1.analyse-roles", "%s line %s: the returned status %s is not directly the result of _analyse_defect (computed elsewhere)" % (key, n.get("l"), render(e)[:60]))
+                    continue
                 ok = False
                 why.append("line %s returns %s, not the result of _analyse_defect" % (n.get("l"), render(e)[:60]))
                 continue
@@ -1350,6 +1673,100 @@ def is_minus_one(lo, e):
     return term(lo, e) in ("neg(1)", "-1", "neg(1.0)", "-1.0")
 
 
+NUMERIC_READS = ("dot", "norm2", "norm2sqr", "max_abs_element", "min_abs_element", "dot_async", "norm2_async", "triple_dot")
+OVERWRITES = ("format", "clear", "copy", "convert")
+
+
+def object_uses(fn, lo, key, before=None):
+    """uses of the object `key` (by objkey, so aliases count) in calls not dominated by statement `before`:
+    -> list of (kind, call node) with kind 'recv-const' | 'recv-mut' | 'arg-const' | 'arg-mut'"""
+    out = []
+    for c in fn.calls():
+        if before is not None and (c["i"] == before["i"] or fn.cfg.stmt_dominates(before["i"], c["i"])):
+            continue
+        if c.get("k") == "MCall" and c.get("obj") is not None and c["obj"].get("k") != "This" and objkey(lo, c["obj"]) == key:
+            out.append(("recv-const" if c.get("cconst") else "recv-mut", c))
+        for i, x in enumerate(c.get("a", [])):
+            if isinstance(x, dict) and x.get("k") in ("Ref", "Member", "MCall") and objkey(lo, x) == key:
+                pt = fn.type(c["pt"][i]) if i < len(c.get("pt", [])) else ""
+                out.append(("arg-const" if ("const" in pt or not ("&" in pt or "*" in pt)) else "arg-mut", c))
+    return out
+
+
+def scalar_value(lo, e):
+    t = term(lo, e)
+    m = re.match(r"^neg\((\d+(\.\d+)?)\)$", t)
+    if m:
+        return -float(m.group(1))
+    try:
+        return float(t)
+    except ValueError:
+        return None
+
+
+def defect_value(fn, lo, dobj, before):
+    """straight-line symbolic value of the vector dobj before statement `before`, as coefficients of
+    {'rhs', 'A*sol'}; None if some step is not modelled (other operands, unknown scalars, branches)"""
+    val = {}
+    known = False
+    cfg = fn.cfg
+    wb = cfg.block_of(before["i"])
+    if wb is None:
+        return None
+    for sid in cfg.blocks[wb[0]]["el"]:
+        if sid == before["i"]:
+            break
+        c = fn.by_id(sid)
+        if c is None or c.get("k") != "MCall":
+            continue
+        nm = cname(c)
+        roles = dict(zip(c.get("pn", []), c.get("a", [])))
+        obj = objkey(lo, c.get("obj")) if c.get("obj") is not None else None
+
+        def vec(e):
+            k = objkey(lo, e)
+            if k == "$1":
+                return {"rhs": 1.0}
+            if k == dobj:
+                return dict(val) if known else None
+            return None
+        if nm == "apply" and obj == "this._system_matrix" and objkey(lo, roles.get("r", {})) == dobj:
+            if objkey(lo, roles.get("x", {})) != "$0":
+                return None
+            if "y" in roles:
+                a = scalar_value(lo, roles["alpha"])
+                y = vec(roles["y"])
+                if a is None or y is None:
+                    return None
+                val = dict(y)
+                val["A*sol"] = val.get("A*sol", 0.0) + a
+            else:
+                val = {"A*sol": 1.0}
+            known = True
+        elif obj == dobj and nm == "scale":
+            x, a = vec(roles.get("x", {})), scalar_value(lo, roles.get("alpha", {}))
+            if x is None or a is None:
+                return None
+            val, known = {k: v * a for k, v in x.items()}, True
+        elif obj == dobj and nm == "axpy":
+            x = vec(roles.get("x", {}))
+            a = scalar_value(lo, roles["alpha"]) if "alpha" in roles else 1.0
+            if x is None or a is None or not known:
+                return None
+            for k, v in x.items():
+                val[k] = val.get(k, 0.0) + a * v
+        elif obj == dobj and nm == "copy":
+            x = vec(c["a"][0]) if c.get("a") else None
+            if x is None:
+                return None
+            val, known = x, True
+        elif obj == dobj and not c.get("cconst"):
+            return None
+    if not known:
+        return None
+    return {k: v for k, v in val.items() if v != 0.0}
+
+
 def rule_apply_correct(ck, solvers):
     for sc in sorted(SOLVERS):
         ai = solvers.get(sc, {}).get("_apply_intern", [])
@@ -1363,119 +1780,144 @@ def rule_apply_correct(ck, solvers):
             fwd_bad = []
             for fn in fns:
                 tag = short_inst(fn)
+                where = "%s::%s [%s]" % (sc, meth, tag)
                 if len(fn.params) != 2:
-                    ck.incomplete(rule, "%s::%s has %d parameters" % (sc, meth, len(fn.params)))
+                    ck.incomplete(rule, "%s has %d parameters" % (where, len(fn.params)))
                     continue
                 lo = Locals(fn)
-                par = parent_map(fn)
                 p0, p1 = fn.params[0], fn.params[1]
                 calls = [c for c in fn.calls() if cname(c) == "_apply_intern"]
                 if len(calls) != 1:
-                    ck.incomplete(rule, "%s::%s [%s]: %d calls of _apply_intern" % (sc, meth, tag, len(calls)))
+                    ck.incomplete(rule, "%s: %d calls of _apply_intern (iteration delegated differently)" % (where, len(calls)))
                     continue
                 call = calls[0]
                 okp, _bad = fn.cfg.must_pass(lambda n: n.get("i") == call["i"])
                 if not okp:
-                    problems.append("[%s] a path through %s() returns without running _apply_intern" % (tag, meth))
-                if not call.get("a") or objkey(lo, call["a"][0]) != "$0":
-                    problems.append("[%s] _apply_intern iterates on %s instead of the caller's %s" % (tag, render(call["a"][0]) if call.get("a") else "nothing", p0["n"]))
+                    ck.incomplete(rule, "%s: a path returns without running _apply_intern (early-out not modelled)" % where)
+                    continue
+                if not call.get("a"):
+                    ck.incomplete(rule, "%s: _apply_intern takes no iterate" % where)
+                    continue
+                it_key = objkey(lo, call["a"][0])
+                if it_key != "$0":
+                    if it_key.startswith("?") or any(k == "arg-mut" and cname(c) != "_apply_intern" for k, c in object_uses(fn, lo, "$0")):
+                        ck.incomplete(rule, "%s: _apply_intern iterates on %s; relation to %s not modelled" % (where, render(call["a"][0])[:40], p0["n"]))
+                    else:
+                        problems.append("[%s] _apply_intern iterates on %s instead of the caller's %s" % (tag, render(call["a"][0])[:40], p0["n"]))
+                    continue
                 # the defect vector of the matching _apply_intern
                 same = [f for f in ai if f.cls == fn.cls]
                 dobj = None
                 if same:
-                    lo2 = Locals(same[0])
-                    ini = [c for c in same[0].calls() if cname(c) == "_set_initial_defect"]
-                    if ini:
-                        dobj = objkey(lo2, ini[0]["a"][0])
-                if dobj is None:
-                    ck.incomplete(rule, "%s::%s [%s]: defect vector of _apply_intern not found" % (sc, meth, tag))
+                    cands, _summ, _fl = status_helpers(solvers.get(sc, {}), fn.cls, {})
+                    dobj = find_defect_obj(same[0], Locals(same[0]), cands)
+                if dobj is None or dobj.startswith("?") or dobj.startswith("$"):
+                    ck.incomplete(rule, "%s: defect vector of _apply_intern not identified (%s)" % (where, dobj))
                     continue
-                # uses of the start vector before the iteration
-                pre_uses = []
-                for r in refs_of(fn, p0["d"]):
-                    st = stmt_of(fn, par, r)
-                    if st is None or st["i"] == call["i"] or fn.cfg.stmt_dominates(call["i"], st["i"]):
-                        continue
-                    # the Assign `_status = _apply_intern(p0)` contains the call
-                    if any(x.get("i") == call["i"] for x in walk(st)):
-                        continue
-                    pre_uses.append((r, st))
+                sol_uses = [(k, c) for k, c in object_uses(fn, lo, "$0", before=call)]
+                def_uses = [(k, c) for k, c in object_uses(fn, lo, dobj, before=call)]
+                intern_formats = same and any(c.get("k") == "MCall" and cname(c) in OVERWRITES and objkey(Locals(same[0]), c.get("obj")) == "$0" for c in same[0].calls())
                 if meth == "apply":
-                    fm = [c for c in fn.calls() if c.get("k") == "MCall" and cname(c) == "format" and objkey(lo, c.get("obj")) == "$0"
-                          and all(is_zero(lo, a) for a in c.get("a", []))]
-                    fm = [c for c in fm if fn.cfg.stmt_dominates(c["i"], call["i"])]
+                    fm = [c for k, c in sol_uses if k == "recv-mut" and cname(c) == "format" and all(is_zero(lo, a) for a in c.get("a", []))
+                          and fn.cfg.stmt_dominates(c["i"], call["i"])]
                     if not fm:
-                        problems.append("[%s] %s is not formatted to zero on every path before the iteration: apply() starts from whatever the caller left in it (documented: contents may be undefined on entry, the solver starts with the null vector)" % (tag, p0["n"]))
+                        others = [c for k, c in sol_uses if k in ("recv-mut", "arg-mut")]
+                        if others or intern_formats:
+                            ck.incomplete(rule, "%s: no %s.format(0) before the iteration, but %s may define it" % (where, p0["n"], ", ".join(sorted({cname(c) for c in others})) or "_apply_intern"))
+                        else:
+                            problems.append("[%s] %s is neither formatted nor otherwise written before the iteration: apply() starts from whatever the caller left in it (documented: contents may be undefined on entry, the solver starts with the null vector)" % (tag, p0["n"]))
                     else:
                         f0 = fm[0]
-                        for r, st in pre_uses:
-                            if st["i"] == f0["i"] or any(x.get("i") == f0["i"] for x in walk(st)):
+                        for k, c in sol_uses:
+                            if c["i"] == f0["i"] or fn.cfg.stmt_dominates(f0["i"], c["i"]):
                                 continue
-                            if not fn.cfg.stmt_dominates(f0["i"], st["i"]):
-                                problems.append("[%s] line %s: %s uses %s before it is formatted" % (tag, st.get("l"), render(st)[:60], p0["n"]))
-                    cp = [c for c in fn.calls() if c.get("k") == "MCall" and cname(c) == "copy" and c.get("a") and objkey(lo, c["a"][0]) == "$1"
-                          and fn.cfg.stmt_dominates(c["i"], call["i"])]
-                    objs = {objkey(lo, c.get("obj")) for c in cp}
-                    if dobj not in objs:
-                        problems.append("[%s] the vector measured by _set_initial_defect (%s) is not the copy of %s made by apply() (copies: %s)" % (tag, dobj, p1["n"], sorted(objs) or "none"))
-                    else:
+                            numeric = (k == "recv-const" and cname(c) in NUMERIC_READS) or (k == "arg-const" and cname(c) in ("copy", "axpy", "scale", "apply", "dot", "component_product") + NUMERIC_READS)
+                            if numeric:
+                                problems.append("[%s] line %s: %s reads the numerical contents of %s before it is formatted" % (tag, c.get("l"), render(c)[:60], p0["n"]))
+                    cp = [c for k, c in def_uses if k == "recv-mut" and cname(c) == "copy" and c.get("a") and objkey(lo, c["a"][0]) == "$1" and fn.cfg.stmt_dominates(c["i"], call["i"])]
+                    if cp:
                         notes.append("[%s] %s := copy(%s); %s.format(0)" % (tag, dobj, p1["n"], p0["n"]))
-                else:
-                    for r, st in pre_uses:
-                        pn = par.get(r["i"])
-                        # allowed: const argument position of a call (x of matrix.apply)
-                        if pn is not None and is_call(pn) and any(a is r or a.get("i") == r["i"] for a in pn.get("a", [])):
-                            idx = [a.get("i") for a in pn["a"]].index(r["i"])
-                            pt = fn.type(pn["pt"][idx]) if idx < len(pn.get("pt", [])) else ""
-                            if "const" in pt or not ("&" in pt or "*" in pt):
-                                continue
-                            problems.append("[%s] line %s: the start vector %s is handed to %s in a mutable position before the iteration" % (tag, st.get("l"), p0["n"], cname(pn)))
-                        elif pn is not None and pn.get("k") == "MCall" and pn.get("obj") is r:
-                            if pn.get("cconst"):
-                                continue
-                            problems.append("[%s] line %s: correct() calls %s.%s(...) before iterating: the initial guess of the caller is destroyed (documented: vec_sol is the initial solution)" % (tag, st.get("l"), p0["n"], cname(pn)))
+                    else:
+                        writers = [c for k, c in def_uses if k in ("recv-mut", "arg-mut")]
+                        rhs_elsewhere = [c for k, c in object_uses(fn, lo, "$1", before=call) if not (k == "arg-const" and cname(c) == "_apply_intern")]
+                        asg = [n for n in fn.nodes() if as_assign(n) is not None and objkey(lo, as_assign(n)[0]) == dobj]
+                        if writers or asg:
+                            ck.incomplete(rule, "%s: %s is not set by %s.copy(%s) but written by %s" % (where, dobj, dobj, p1["n"], ", ".join(sorted({cname(c) for c in writers})) or "assignment"))
+                        elif any(k == "arg-mut" or (k.startswith("arg") and cname(c) not in ("copy",)) for k, c in [(k, c) for k, c in object_uses(fn, lo, "$1", before=call)] if cname(c) != "_apply_intern"):
+                            ck.incomplete(rule, "%s: %s is handed to %s; whether that defines %s is not modelled" % (where, p1["n"], ", ".join(sorted({cname(c) for c in rhs_elsewhere})), dobj))
                         else:
-                            ck.incomplete(rule, "%s::correct [%s] line %s: unmodelled use of the start vector: %s" % (sc, tag, st.get("l"), render(st)[:70]))
+                            problems.append("[%s] the vector measured by _set_initial_defect (%s) is never written by apply(): the initial defect is not the given %s (copies of it go to: %s)" % (
+                                tag, dobj, p1["n"], sorted({objkey(lo, c.get("obj")) for c in fn.calls() if c.get("k") == "MCall" and cname(c) == "copy" and c.get("a") and objkey(lo, c["a"][0]) == "$1"}) or "nowhere"))
+                else:
+                    for k, c in sol_uses:
+                        if k == "recv-mut" and cname(c) in OVERWRITES:
+                            problems.append("[%s] line %s: correct() calls %s.%s(...) before iterating: the initial guess of the caller is destroyed (documented: vec_sol is the initial solution)" % (tag, c.get("l"), p0["n"], cname(c)))
+                        elif k in ("recv-mut", "arg-mut"):
+                            ck.incomplete(rule, "%s line %s: the start vector is modified by %s before the iteration (effect not modelled)" % (where, c.get("l"), cname(c)))
                     # defect := rhs - A*sol, filtered, into the vector measured by _set_initial_defect
-                    mv = []
-                    for c in fn.calls():
-                        if c.get("k") == "MCall" and cname(c) == "apply" and objkey(lo, c.get("obj")) == "this._system_matrix" and fn.cfg.stmt_dominates(c["i"], call["i"]):
-                            mv.append(c)
-                    good = None
-                    for c in mv:
+                    good, wrong = None, []
+                    for k, c in def_uses:
+                        if not (k == "arg-mut" and c.get("k") == "MCall" and cname(c) == "apply" and objkey(lo, c.get("obj")) == "this._system_matrix" and fn.cfg.stmt_dominates(c["i"], call["i"])):
+                            continue
                         roles = dict(zip(c.get("pn", []), c.get("a", [])))
                         if set(roles) != {"r", "x", "y", "alpha"}:
-                            ck.incomplete(rule, "%s::correct [%s]: matrix apply with parameters %s" % (sc, tag, c.get("pn")))
                             continue
                         got = (objkey(lo, roles["r"]), objkey(lo, roles["x"]), objkey(lo, roles["y"]), is_minus_one(lo, roles["alpha"]))
                         if got == (dobj, "$0", "$1", True):
                             good = c
-                        else:
-                            problems.append("[%s] line %s: defect computation %s has (r,x,y,alpha) = (%s,%s,%s,%s); expected (%s, %s, %s, -1), i.e. rhs - A*sol into the vector measured by _set_initial_defect" % (
+                        elif got[0] == dobj:
+                            wrong.append("[%s] line %s: defect computation %s has (r,x,y,alpha) = (%s,%s,%s,%s); expected (%s, %s, %s, -1), i.e. rhs - A*sol into the vector measured by _set_initial_defect" % (
                                 tag, c.get("l"), render(c)[:50], got[0], got[1], got[2], term(lo, roles["alpha"]), dobj, p0["n"], p1["n"]))
-                    if not mv:
-                        problems.append("[%s] correct() does not compute rhs - A*sol before the iteration" % tag)
-                    if good is not None:
-                        fl = [c for c in fn.calls() if c.get("k") == "MCall" and cname(c) == "filter_def" and objkey(lo, c.get("obj")) == "this._system_filter"
-                              and c.get("a") and objkey(lo, c["a"][0]) == dobj and fn.cfg.stmt_dominates(good["i"], c["i"]) and fn.cfg.stmt_dominates(c["i"], call["i"])]
-                        if not fl:
-                            problems.append("[%s] the initial defect %s is not passed through _system_filter.filter_def before the iteration" % (tag, dobj))
+                    other_writers = [c for k, c in def_uses if k in ("recv-mut", "arg-mut") and (good is None or c["i"] != good["i"]) and cname(c) != "filter_def"]
+                    stepwise = defect_value(fn, lo, dobj, call) if good is None else None
+                    if good is None and stepwise == {"rhs": 1.0, "A*sol": -1.0}:
+                        # rhs - A*sol assembled in several vector operations
+                        fl = [c for k, c in def_uses if k == "arg-mut" and cname(c) == "filter_def" and objkey(lo, c.get("obj")) == "this._system_filter" and fn.cfg.stmt_dominates(c["i"], call["i"])]
+                        last_writer = max([c["i"] for k, c in def_uses if k == "recv-mut" or (k == "arg-mut" and cname(c) == "apply")] or [0])
+                        if fl and all(fn.cfg.stmt_dominates(by, f["i"]) for f in fl[-1:] for by in [last_writer] if by):
+                            notes.append("[%s] %s := filter_def(%s - A*%s) (assembled stepwise)" % (tag, dobj, p1["n"], p0["n"]))
                         else:
+                            ck.incomplete(rule, "%s: stepwise defect %s is not followed by a filter_def this rule can order" % (where, dobj))
+                    elif good is None and stepwise is not None and not wrong:
+                        problems.append("[%s] the vector measured by _set_initial_defect is initialised to %s, not to rhs - A*sol" % (tag, " + ".join("%g*%s" % (v, k) for k, v in sorted(stepwise.items())) or "0"))
+                    elif good is None:
+                        if other_writers and not wrong:
+                            ck.incomplete(rule, "%s: the defect %s is not computed by one _system_matrix.apply(r,x,y,alpha) but through %s" % (where, dobj, ", ".join(sorted({cname(c) for c in other_writers}))))
+                        elif wrong and len(other_writers) > len(wrong):
+                            ck.incomplete(rule, "%s: %s; further writers of %s: %s" % (where, wrong[0][:160], dobj, ", ".join(sorted({cname(c) for c in other_writers}))))
+                        elif wrong:
+                            problems.extend(wrong[:1])
+                        else:
+                            problems.append("[%s] correct() never writes %s, the vector measured by _set_initial_defect: the initial defect is not rhs - A*sol" % (tag, dobj))
+                    else:
+                        fl = [c for k, c in def_uses if k == "arg-mut" and cname(c) == "filter_def" and objkey(lo, c.get("obj")) == "this._system_filter"
+                              and fn.cfg.stmt_dominates(good["i"], c["i"]) and fn.cfg.stmt_dominates(c["i"], call["i"])]
+                        if fl:
                             notes.append("[%s] %s := filter_def(%s - A*%s)" % (tag, dobj, p1["n"], p0["n"]))
+                        else:
+                            later = [c for k, c in def_uses if k in ("arg-mut", "recv-mut") and c["i"] != good["i"]]
+                            in_intern = same and any(cname(c) == "filter_def" for c in same[0].calls() if c.get("a") and objkey(Locals(same[0]), c["a"][0]) == dobj)
+                            if later or in_intern:
+                                ck.incomplete(rule, "%s: no _system_filter.filter_def(%s) between the defect computation and the iteration, but %s may filter it" % (where, dobj, ", ".join(sorted({cname(c) for c in later})) or "_apply_intern"))
+                            else:
+                                problems.append("[%s] the initial defect %s is not passed through _system_filter.filter_def before the iteration (constrained dofs keep a non-zero defect)" % (tag, dobj))
                 # the status of the run is what the caller gets
                 for n in fn.nodes():
                     if n.get("k") != "Return":
                         continue
-                    e = strip(n.get("e"))
+                    e = lo.resolve(n.get("e"))
                     if e.get("i") == call["i"]:
                         continue
                     if e.get("k") == "Member" and e.get("field"):
                         asg = [a for a in fn.nodes() if a.get("k") == "Assign" and term(lo, a["lhs"]) == term(lo, e)]
-                        if len(asg) == 1 and strip(asg[0]["rhs"]).get("i") == call["i"] and fn.cfg.stmt_dominates(asg[0]["i"], n["i"]):
+                        if len(asg) == 1 and lo.resolve(asg[0]["rhs"]).get("i") == call["i"] and fn.cfg.stmt_dominates(asg[0]["i"], n["i"]):
                             continue
-                    fwd_bad.append("[%s] line %s: %s() returns %s, which is not the status of _apply_intern" % (tag, n.get("l"), meth, render(e)[:50]))
+                    if status_lit(e) is not None:
+                        fwd_bad.append("[%s] line %s: %s() returns the literal %s, not the status of _apply_intern" % (tag, n.get("l"), meth, render(e)[:50]))
+                    else:
+                        ck.incomplete("E7.status-forwarded", "%s line %s: returned status %s is not directly the result of _apply_intern" % (where, n.get("l"), render(e)[:50]))
             f0 = fns[0]
-            ck.ob(rule, "%s::%s" % (sc, meth), not problems, "; ".join(problems[:3]) if problems else "; ".join(notes[:2]), f0.file, f0.line)
+            ck.ob(rule, "%s::%s" % (sc, meth), not problems, "; ".join(problems[:3]) if problems else "; ".join(notes[:2]) or "see analysis_incomplete", f0.file, f0.line)
             ck.ob("E7.status-forwarded", "%s::%s" % (sc, meth), not fwd_bad, "; ".join(fwd_bad[:2]) if fwd_bad else "returns the status computed by _apply_intern (stored in _status)", f0.file, f0.line)
 
 
@@ -1554,27 +1996,53 @@ def field_written_from(fn, lo, src_pred):
     return out
 
 
+def through_moves(lo, e):
+    """strip std::move / std::forward / value casts around an expression"""
+    e = lo.resolve(e)
+    while is_call(e) and cname(e) in ("move", "forward") and len(e.get("a", [])) == 1:
+        e = lo.resolve(e["a"][0])
+    return e
+
+
 def setter_field(fn):
-    """set_X(p): the field that receives parameter p directly on every path, or (None, why)"""
+    """set_X(p): -> (field, stmt) if parameter p is stored directly into exactly one field on every path;
+    (None, why, definite): definite=True only if the parameter demonstrably reaches no field at all"""
     if len(fn.params) != 1:
-        return None, "setter with %d parameters" % len(fn.params)
+        return None, "setter with %d parameters" % len(fn.params), False
     lo = Locals(fn)
     d = fn.params[0]["d"]
     direct = []
     for n in fn.nodes():
         lr = as_assign(n)
         if lr is not None:
-            l, r = strip(lr[0]), lo.resolve(lr[1])
+            l, r = strip(lr[0]), through_moves(lo, lr[1])
             if l.get("k") == "Member" and l.get("field") and r.get("k") == "Ref" and r.get("d") == d:
                 direct.append((l["n"], n))
     if not direct:
-        return None, "the parameter is not stored into any field"
+        uses = [x for x in fn.nodes() if x.get("k") == "Ref" and x.get("d") == d]
+        par = parent_map(fn)
+        flows = [u for u in uses if (par.get(u["i"]) or {}).get("callee", "").find("assertion") < 0]
+        # uses inside XASSERT(...) do not store anything
+        real = []
+        for u in flows:
+            q = par.get(u["i"])
+            in_assert = False
+            while q is not None:
+                if is_call(q) and "assertion" in q.get("callee", ""):
+                    in_assert = True
+                    break
+                q = par.get(q.get("i")) if "i" in q else None
+            if not in_assert:
+                real.append(u)
+        if real:
+            return None, "the parameter is not assigned to a field directly but flows into %s" % render(par.get(real[0]["i"]) or real[0])[:50], False
+        return None, "the parameter is stored nowhere", True
     ok = [x for x in direct if fn.cfg.must_pass(lambda s, _i=x[1]["i"]: s.get("i") == _i)[0]]
     if not ok:
-        return None, "the assignment of the parameter does not lie on every path"
+        return None, "the assignment of the parameter is conditional", False
     if len({x[0] for x in ok}) > 1:
-        return None, "the parameter is stored into several fields: %s" % sorted({x[0] for x in ok})
-    return ok[0][0], ok[0][1]
+        return None, "the parameter is stored into several fields: %s" % sorted({x[0] for x in ok}), False
+    return ok[0][0], ok[0][1], True
 
 
 def rule_config(ck, facts):
@@ -1586,10 +2054,13 @@ def rule_config(ck, facts):
             if not (fn.name.startswith("set_") or (sc, fn.name) in SETTER_FIELD_EXCEPT) or fn.name in seen or fn.d.get("ctor"):
                 continue
             seen.add(fn.name)
-            fld, info = setter_field(fn)
+            fld, info, definite = setter_field(fn)
             want, src = SETTER_FIELD_EXCEPT.get((sc, fn.name), ("_" + fn.name[4:], "like-named field"))
             if fld is None:
-                ck.ob("E1.setter-field", "%s::%s" % (sc, fn.name), False, "%s (expected: %s := parameter)" % (info, want), fn.file, fn.line)
+                if definite:
+                    ck.ob("E1.setter-field", "%s::%s" % (sc, fn.name), False, "%s (expected: %s := parameter)" % (info, want), fn.file, fn.line)
+                else:
+                    ck.incomplete("E1.setter-field", "%s::%s: %s (expected: %s := parameter)" % (sc, fn.name, info, want))
                 continue
             setters[(sc, fn.name)] = fld
             ck.ob("E1.setter-field", "%s::%s" % (sc, fn.name), fld == want,
@@ -1611,42 +2082,48 @@ def rule_config(ck, facts):
             seen.add(fn.name)
             ck.ob("E1.getter-field", "%s::%s" % (sc, fn.name), e["n"] == want,
                   "%s() returns %s; expected %s (%s)" % (fn.name, e["n"], want, src), fn.file, fn.line)
-    # --- PropertyMap keys parsed in constructors
+    # --- PropertyMap keys parsed in constructors (directly, or through a local lambda called with key and target)
     for sc in CONFIG_CLASSES:
         seen = set()
-        for fn in class_functions(facts, sc):
-            if not fn.d.get("ctor"):
-                continue
+        cfs = class_functions(facts, sc)
+        ctor_qns = {f.qn for f in cfs if f.d.get("ctor")}
+        lambdas = [f for f in facts.functions if "<lambda@" in f.qn and any(f.qn.startswith(q + "::<lambda@") for q in ctor_qns)]
+        for fn in [f for f in cfs if f.d.get("ctor")] + lambdas:
             lo = Locals(fn)
-            for q in fn.calls():
+            is_lambda = "<lambda@" in fn.qn
+            own_calls = [x for x in walk(fn.body, prune=lambda n: n.get("k") == "Lambda") if is_call(x)]
+            for q in own_calls:
                 if q.get("k") != "MCall" or cname(q) not in ("get_entry", "query") or "PropertyMap" not in q.get("callee", ""):
                     continue
+                karg = lo.resolve(q["a"][0]) if q.get("a") else {}
                 keys = [x["v"] for x in walk(q) if x.get("k") == "Str"]
+                kparam = None
                 if len(keys) != 1:
-                    ck.incomplete("E1.config-key-field", "%s constructor line %s: key of %s is not a string literal" % (sc, q.get("l"), render(q)[:60]))
-                    continue
-                key = keys[0]
-                if key in seen:
-                    continue
-                seen.add(key)
+                    if is_lambda and karg.get("k") == "Ref" and karg.get("dk") == "param":
+                        kparam = [p["d"] for p in fn.params].index(karg["d"])
+                    else:
+                        ck.incomplete("E1.config-key-field", "%s constructor line %s: key of %s is not a string literal" % (sc, q.get("l"), render(q)[:60]))
+                        continue
                 # the variable holding the (value, found) pair
                 var = None
                 for v in lo.var.values():
                     if v.get("init") is not None and any(x.get("i") == q["i"] for x in walk(v["init"])):
                         var = v
                 if var is None:
-                    ck.incomplete("E1.config-key-field", "%s constructor line %s: result of %s(\"%s\") is not stored in a local" % (sc, q.get("l"), cname(q), key))
+                    ck.incomplete("E1.config-key-field", "%s constructor line %s: result of %s is not stored in a local" % (sc, q.get("l"), render(q)[:50]))
                     continue
                 vd = var["d"]
 
                 def from_value(x, _vd=vd):
                     return x.get("k") == "Member" and x.get("n") == "first" and strip(x.get("b") or {}).get("k") == "Ref" and strip(x["b"]).get("d") == _vd
-                targets = {}
+                targets, ptargets, opaque = {}, [], []
                 for c in fn.calls():
                     if c.get("k") == "MCall" and cname(c) == "parse" and c.get("obj") is not None and from_value(strip(c["obj"])) and c.get("a"):
                         t = strip(c["a"][0])
                         if t.get("k") == "Member" and t.get("field"):
                             targets[t["n"]] = c
+                        elif t.get("k") == "Ref" and t.get("dk") == "param" and is_lambda:
+                            ptargets.append([p["d"] for p in fn.params].index(t["d"]))
                         elif t.get("k") == "Ref" and t.get("dk") == "local":
                             # parsed into a local that is then stored into a field
                             fw = field_written_from(fn, lo, lambda x, _d=t["d"]: x.get("k") == "Ref" and x.get("d") == _d)
@@ -1659,34 +2136,66 @@ def rule_config(ck, facts):
                                         fw[f2] = c2
                                         targets[f2] = c2
                             if not fw:
-                                ck.incomplete("E1.config-key-field", "%s: key \"%s\" is parsed into local '%s' that reaches no field" % (sc, key, t["n"]))
+                                opaque.append("parsed into local '%s' that reaches no field directly" % t["n"])
                         else:
-                            ck.incomplete("E1.config-key-field", "%s: key \"%s\" parsed into %s" % (sc, key, render(t)[:40]))
+                            opaque.append("parsed into %s" % render(t)[:40])
                     elif c.get("k") == "MCall" and cname(c).startswith("set_") and (c.get("obj") is None or c["obj"].get("k") == "This") and any(from_value(x) for x in walk(c)):
                         f2 = setters.get((sc, cname(c))) or setters.get(("IterativeSolver", cname(c)))
                         if f2 is None:
-                            ck.incomplete("E1.config-key-field", "%s: key \"%s\" goes through unknown setter %s" % (sc, key, cname(c)))
+                            opaque.append("goes through setter %s, whose field is not known" % cname(c))
                         else:
                             targets[f2] = c
+                    elif is_call(c) and cname(c) not in ("parse", "ParseError", "String", "operator+", "basic_string") and "ParseError" not in c.get("callee", "") \
+                            and any(from_value(x) for a in c.get("a", []) for x in walk(a)):
+                        opaque.append("handed to %s" % cname(c))
                 for fname, st in field_written_from(fn, lo, from_value).items():
                     targets[fname] = st
-                if (sc, key) in KEY_FIELD_EXCEPT:
-                    want, src = KEY_FIELD_EXCEPT[(sc, key)]
-                elif (sc, "set_" + key) in SETTER_FIELD_EXCEPT:
-                    want, src = SETTER_FIELD_EXCEPT[(sc, "set_" + key)][0], "the documented field of %s::set_%s" % (sc, key)
+                # the (key, targets) pairs this query stands for
+                sites = []
+                if kparam is None:
+                    sites.append((keys[0], dict(targets), q.get("l"), fn))
                 else:
-                    want, src = "_" + key, "like-named field"
-                line = q.get("l")
-                if not targets:
-                    ck.ob("E1.config-key-field", "%s/%s" % (sc, key), False, "the value of key \"%s\" is read from the section but stored nowhere (expected %s)" % (key, want), fn.file, line)
-                else:
-                    got = sorted(targets)
-                    ck.ob("E1.config-key-field", "%s/%s" % (sc, key), got == [want],
-                          ("the value of key \"%s\" is stored into %s; expected %s (%s): a configured \"%s\" silently changes another criterion" % (key, got, want, src, key)) if got != [want]
-                          else "key \"%s\" -> %s" % (key, want), fn.file, line)
-
-
-
+                    ncalls = 0
+                    for caller in cfs:
+                        clo = None
+                        for c in caller.calls():
+                            if c.get("k") == "OpCall" and c.get("op") == "()" and c.get("cdecl") == fn.d.get("decl"):
+                                ncalls += 1
+                                clo = clo or Locals(caller)
+                                args = c["a"][1:]
+                                ks = [x["v"] for x in walk(args[kparam]) if x.get("k") == "Str"] if kparam < len(args) else []
+                                if len(ks) != 1:
+                                    ck.incomplete("E1.config-key-field", "%s line %s: key argument of the parsing lambda is not a string literal" % (sc, c.get("l")))
+                                    continue
+                                tg = dict(targets)
+                                for j in ptargets:
+                                    t = clo.resolve(args[j]) if j < len(args) else {}
+                                    if t.get("k") == "Member" and t.get("field"):
+                                        tg[t["n"]] = c
+                                    else:
+                                        ck.incomplete("E1.config-key-field", "%s line %s: key \"%s\" is parsed into %s (not a field)" % (sc, c.get("l"), ks[0], render(t)[:40]))
+                                sites.append((ks[0], tg, c.get("l"), caller))
+                    if ncalls == 0:
+                        ck.incomplete("E1.config-key-field", "%s: no call of the parsing lambda at line %s found" % (sc, fn.line))
+                for key, tg, line, where in sites:
+                    if key in seen:
+                        continue
+                    seen.add(key)
+                    if (sc, key) in KEY_FIELD_EXCEPT:
+                        want, src = KEY_FIELD_EXCEPT[(sc, key)]
+                    elif (sc, "set_" + key) in SETTER_FIELD_EXCEPT:
+                        want, src = SETTER_FIELD_EXCEPT[(sc, "set_" + key)][0], "the documented field of %s::set_%s" % (sc, key)
+                    else:
+                        want, src = "_" + key, "like-named field"
+                    if opaque and sorted(tg) != [want]:
+                        ck.incomplete("E1.config-key-field", "%s: value of key \"%s\" %s (expected to reach %s)" % (sc, key, "; ".join(opaque[:2]), want))
+                    elif not tg:
+                        ck.ob("E1.config-key-field", "%s/%s" % (sc, key), False, "the value of key \"%s\" is read from the section but neither parsed, assigned nor passed on (expected %s)" % (key, want), where.file, line)
+                    else:
+                        got = sorted(tg)
+                        ck.ob("E1.config-key-field", "%s/%s" % (sc, key), got == [want],
+                              ("the value of key \"%s\" is stored into %s; expected %s (%s): a configured \"%s\" silently changes another criterion" % (key, got, want, src, key)) if got != [want]
+                              else "key \"%s\" -> %s" % (key, want), where.file, line)
 
 
 def _rewrite_inner_atom(a, dterm):
@@ -1741,18 +2250,22 @@ def rule_inner_criteria(ck, solvers):
                 code_atoms = sorted(f_atoms(f))
                 lefts = {split_top(a[3:-1])[0] for a in code_atoms if a.startswith("le(")}
                 if len(lefts) != 1:
-                    ck.ob("E13.inner-criteria", key, False, "line %s: the comparisons test different quantities %s" % (n.get("l"), sorted(lefts)), fn.file, n.get("l"))
+                    ck.incomplete("E13.inner-criteria", "%s line %s: the comparisons have different left operands %s (not the replicated criterion shape)" % (key, n.get("l"), sorted(lefts)))
                     continue
                 dterm = lefts.pop()
-                ren, bad = {}, []
+                ren, bad, unknown_atom = {}, [], None
                 for a in code_atoms:
                     rw = _rewrite_inner_atom(a, dterm)
                     if rw is None:
-                        bad.append("atom %s" % a)
+                        unknown_atom = a
+                        break
                     elif rw[1] != want_scaled:
                         bad.append("%s is %s by _inner_res_scale" % (a, "scaled" if rw[1] else "not scaled"))
                     else:
                         ren[a] = rw[0]
+                if unknown_atom is not None:
+                    ck.incomplete("E13.inner-criteria", "%s line %s: comparison %s is not of the form <pseudo-residual> <= [_inner_res_scale *] tolerance" % (key, n.get("l"), unknown_atom))
+                    continue
                 if not bad and sorted(set(ren.values())) != sorted(atoms):
                     bad.append("comparisons %s, documented %s" % (sorted(set(ren.values())), sorted(atoms)))
                 if not bad:
@@ -1876,6 +2389,7 @@ class ListFlow:
         self.fn, self.group, self.touching, self.rel = fn, sorted(group), touching, rel
         self.lo = Locals(fn)
         self.problems, self.bad_uses = [], []
+        self.splits = []
         self.exits = []
         cfg = fn.cfg
         self.ins = {cfg.entry: dict(entry)}
@@ -1928,13 +2442,42 @@ class ListFlow:
                 res[g] = old[g] if same else ("N@B%d" % blk, k)
         else:
             for g in self.group:
-                res[g] = old[g] if old[g] == new[g] else TOP
+                if old[g] != new[g]:
+                    if old[g] != TOP and new[g] != TOP:
+                        self.note_split(blk)
+                    res[g] = TOP
+                else:
+                    res[g] = old[g]
         for k in set(old) | set(new):
             if k in self.group:
                 continue
             if k in old and k in new and old[k] == new[k]:
                 res[k] = old[k]
         return res
+
+    def note_split(self, blk):
+        """the branch whose two sides left the lists with different lengths (immediate dominator of the join)"""
+        cfg = self.fn.cfg
+        doms = [d for d in cfg.dom.get(blk, ()) if d != blk and len(cfg.succ.get(d, [])) >= 2]
+        if not doms:
+            return
+        idom = max(doms, key=lambda d: len(cfg.dom.get(d, ())))
+        c = self.fn.by_id(cfg.blocks[idom].get("cond")) if cfg.blocks[idom].get("cond") is not None else None
+        txt = render(c) if c is not None else "?"
+        if txt not in self.splits:
+            self.splits.append(txt)
+
+    def split_is_single_branch(self):
+        """True if every length-splitting condition occurs in exactly one branch of the function (no correlated twin)"""
+        if not self.splits or "?" in self.splits:
+            return False
+        conds = []
+        for b in self.fn.cfg.blocks.values():
+            if b.get("cond") is not None and len(b.get("succ", [])) >= 2:
+                c = self.fn.by_id(b["cond"])
+                if c is not None:
+                    conds.append(render(c))
+        return all(sum(1 for x in conds if x == t or x == "(!%s)" % t or t == "(!%s)" % x) == 1 for t in self.splits)
 
     def ev(self, e, st):
         e = strip(e)
@@ -2002,7 +2545,7 @@ class ListFlow:
                 elif nm == "resize":
                     st[fld] = (self.ev(n["a"][0], st), 0)
                 elif nm in ("at", "front", "back"):
-                    if record and self.diffs(st) != self.rel:
+                    if record and self.diffs(st) != self.rel and not any(st[g] == TOP for g in self.group):
                         self.bad_uses.append((n.get("l"), render(n)[:50], self.describe(st)))
                 elif nm not in LEN_NEUTRAL:
                     st[fld] = TOP
@@ -2089,11 +2632,18 @@ def rule_parallel_lists(ck, solvers):
                         d = lf.diffs(st)
                         cleared = all(st[g] == ("0", 0) for g in glist)
                         if name == "init_symbolic":
-                            if d is None:
+                            if d is None and any(st[g] == TOP for g in glist):
+                                ck.incomplete("E7.parallel-lists", "%s [%s]: list lengths after init_symbolic depend on loop trip counts the length dataflow does not relate (%s)" % (key, tag, lf.describe(st)))
+                            elif d is None:
                                 bad.append("[%s] at the exit through line %s the lists are not sized from one common length: %s" % (tag, compress(fn.cfg.block_lines([b])[-1:]), lf.describe(st)))
                             else:
                                 rel = d
                                 notes.append("establishes %s" % ", ".join("|%s| = n%s" % (g, "+%d" % k if k else "") for g, k in zip(glist, d)))
+                        elif not cleared and d != rel and any(st[g] == TOP for g in glist) and lf.split_is_single_branch():
+                            bad.append("[%s] the list lengths depend on the branch `%s` (one side changes the length of only some of the lists): at the exit through line %s %s" % (
+                                tag, "; ".join(lf.splits)[:80], compress(fn.cfg.block_lines([b])[-1:]), lf.describe(st)))
+                        elif not cleared and d != rel and any(st[g] == TOP for g in glist):
+                            ck.incomplete("E7.parallel-lists", "%s [%s]: the length of a list depends on the path in a way the length dataflow cannot relate (%s)" % (key, tag, lf.describe(st)))
                         elif not cleared and d != rel:
                             bad.append("[%s] at the exit through line %s the parallel lists have different lengths: %s (on entry: %s). Entries k of the lists belong together (co-indexed): after this the next solve pairs entries of different generations" % (
                                 tag, compress(fn.cfg.block_lines([b])[-1:]), lf.describe(st), ", ".join("|%s| = N%s" % (g, "+%d" % k if k else "") for g, k in zip(glist, rel))))
@@ -2123,7 +2673,6 @@ E6_SCOPE = {"PCG": [None], "PCR": [None], "PMR": [None], "Richardson": [None], "
 
 def rule_dimensions(ck, solvers):
     import c07_dim
-    helpers = {"strip": strip, "objkey": objkey, "cname": cname}
     for sc in sorted(E6_SCOPE):
         fns = solvers.get(sc, {}).get("_apply_intern", [])
         if not fns:
@@ -2134,6 +2683,14 @@ def rule_dimensions(ck, solvers):
             bad, nstm = [], 0
             for fn in fns:
                 lo = Locals(fn)
+                api = set(UPD) | {"_apply_precond", "_apply_precond_l", "_apply_precond_r", "_precond_l", "_precond_r", "apply", "correct", "_apply_intern", "name",
+                                  "get_num_iter", "is_converged", "is_diverged", "plot_summary"}
+                methods = {}
+                for mname, mfl in solvers.get(sc, {}).items():
+                    cand = [f for f in mfl if f.cls == fn.cls and f.cfg is not None and not f.d.get("ctor")]
+                    if cand and mname not in api:
+                        methods[mname] = cand[0]
+                helpers = {"strip": strip, "objkey": objkey, "cname": cname, "Locals": Locals, "methods": methods}
                 df = c07_dim.DimFlow(fn, lo, helpers, assume=({variant[0]: variant[1]} if variant else None)).run()
                 for u in sorted(set(df.unmodelled))[:4]:
                     ck.incomplete("E6.dimension", "%s [%s]: unmodelled %s" % (key, short_inst(fn), u))
